@@ -35,6 +35,12 @@ class Journal(object):
     def getRaftCommitIndex(self):
         raise NotImplementedError
 
+    def setTermAndVote(self, currentTerm, votedForNodeId):
+        raise NotImplementedError
+
+    def getTermAndVote(self):
+        raise NotImplementedError
+
     def onOneSecondTimer(self):
         pass
 
@@ -72,6 +78,12 @@ class MemoryJournal(Journal):
 
     def getRaftCommitIndex(self):
         return 1
+
+    def setTermAndVote(self, currentTerm, votedForNodeId):
+        pass
+
+    def getTermAndVote(self):
+        return 0, None
 
 
 
@@ -245,6 +257,20 @@ class FileJournal(Journal):
 
     def getRaftCommitIndex(self):
         return self.__meta.get('raftCommitIndex', 1)
+
+    def setTermAndVote(self, currentTerm, votedForNodeId):
+        # The term and the vote have to be on disk before they are acted upon (a vote must not be
+        # given twice in one term, also not after a restart), so they are stored at once.
+        if self.__meta.get('currentTerm', 0) == currentTerm and \
+                self.__meta.get('votedForNodeId', None) == votedForNodeId:
+            return
+        self.__meta['currentTerm'] = currentTerm
+        self.__meta['votedForNodeId'] = votedForNodeId
+        self.__metaStorer.storeMeta(self.__meta)
+        self.__metaSaved = True
+
+    def getTermAndVote(self):
+        return self.__meta.get('currentTerm', 0), self.__meta.get('votedForNodeId', None)
 
     def onOneSecondTimer(self):
         if not self.__metaSaved:
